@@ -291,7 +291,15 @@ def finish_check(prop, tier, master, agg, wall, broken, quiet, enum_complete,
     exit_code = 0
     reported = []
     os.makedirs(REPLAY_DIR, exist_ok=True)
-    for key, ents in sorted(new_groups.items(), key=lambda kv: str(kv[0]))[:6]:
+    order = []
+    seen_or = set()
+    for key, ents in sorted(new_groups.items(), key=lambda kv: str(kv[0])):
+        if key[0] not in seen_or:
+            seen_or.add(key[0])
+            order.insert(len(seen_or) - 1, (key, ents))
+        else:
+            order.append((key, ents))
+    for key, ents in order[:int(os.environ.get('VERIF_MAX_REPORTS', 8))]:
         ent = ents[0]
         path, mini, repro = report_violation(prop, ent, master, tier)
         reported.append({'oracle': ent['v']['oracle'], 'msg': ent['v']['msg'],
